@@ -159,6 +159,11 @@ def mutate(rng, t, others):
             t[i:i] = list(o[a:a + rng.choice([5, 20, 80])])
         else:
             t[i] = rng.choice("()[]{}\"'#\\;:,.<>=+-*/!?$&|^%_0123456789aeéx\n ")
+    if t and rng.random() < 0.08:
+        # multi-byte padding inside a string literal, a comment, or bare
+        pad = make_pad(rng, rng.choice([5, 40, 90, 118, 119, 120, 121, 130, 200, 250, 256, 300]))
+        i = rng.randrange(len(t))
+        t[i:i] = list(rng.choice(['"%s"', "/*%s*/", "%s", ' + "%s"', "//%s\n"]) % pad)
     return "".join(t)
 
 
@@ -233,6 +238,84 @@ def gen_generic_program(rng):
         lines.append(rng.choice(["let z = useall();", "let z = ()->{ " + " + ".join(f"{f}()" for f in fw) + " };"]))
         lines += [f"fn {f}()->int{{1}}" for f in fw]
     return "\n".join(lines) + "\n", names
+
+
+PAD_CHARS = ["a", "Z", " ", "\xe9", "\xdf", "\u65e5", "\u672c", "\u20ac", "\U0001D11E", "\U0001F600", "\u0301"]
+
+
+def make_pad(rng, nbytes, style=None):
+    """text of exactly `nbytes` UTF-8 bytes mixing 1-, 2-, 3- and 4-byte characters (no quotes, backslashes, braces)"""
+    style = style or rng.choice(["mixed", "mixed", "2", "3", "4", "ascii-then-wide"])
+    out, left = [], nbytes
+    while left > 0:
+        if style == "mixed":
+            c = rng.choice(PAD_CHARS)
+        elif style == "2":
+            c = "\xe9"
+        elif style == "3":
+            c = "\u65e5"
+        elif style == "4":
+            c = "\U0001D11E"
+        else:
+            c = "a" if left > nbytes // 2 else rng.choice(PAD_CHARS[3:])
+        b = len(c.encode("utf-8"))
+        if b > left:
+            c, b = "a", 1
+        out.append(c)
+        left -= b
+    return "".join(out)
+
+
+# (name, template): programs that are rejected with an error of a given class; {P}, {Q} are replaced by padding placed inside
+# a string literal, {C} by padding inside a comment, {I} by an (ASCII-led) padding usable inside an expression as a comment
+ERROR_TEMPLATES = [
+    ("NoOverload", 'let v = "{P}" + 1;'),
+    ("NoOverload-call", 'let v = len("{P}", 1, "{Q}");'),
+    ("NoOverload-nested", 'let v = [("{P}", ["{Q}"])] + 1;'),
+    ("VariableTypeMismatch", 'let v: int = "{P}";'),
+    ("VariableTypeMismatch-seq", 'let v: Sequence<int> = ["{P}", "{Q}"];'),
+    ("ValueNotFound", 'let v = missing_name + "{P}";'),
+    ("ValueNotFound-comment", 'let v = /* {C} */ missing_name /* {C} */;'),
+    ("TypeNotFound", 'let v: Nope = "{P}";'),
+    ("BadEscapeSequence", 'let v = "{P}\\q{Q}";'),
+    ("FunctionOutput", 'fn f()->int{{ "{P}" }}'),
+    ("FunctionOutput-comment", 'fn f(a: int /* {C} */)->int{{ /* {C} */ "x" }}'),
+    ("StructArg", 'struct A(x: int)\nlet v = A("{P}");'),
+    ("MemberNotFound", 'struct A(x: str)\nlet v = A("{P}")::y;'),
+    ("TupleIndex", 'let v = ("{P}", 1)::item5;'),
+    ("NonCompound", 'let v = "{P}"::x;'),
+    ("Ambiguous", 'fn f(x: str)->int{{1}}\nfn f(x: str)->int{{2}}\nlet v = f("{P}");'),
+    ("Forward", 'forward fn fw()->int;\nlet v = fw() /* {C} */ + len("{P}");\nfn fw()->int{{1}}'),
+    ("Lambda", 'let v = ((x: int)->{{ x + "{P}" }})(1);'),
+    ("If", 'let v = if(true, "{P}", 1) + 1;'),
+    ("FString", "let v = f'{P}{{1+\"{Q}\"}}';"),
+    ("Raw", 'let v = r#"{P}"# + 1;'),
+    ("Syntax-two-strings", 'let v = "{P}" "{Q}";'),
+    ("Syntax-unclosed", 'let v = ("{P}", /* {C} */ ;'),
+    ("DefaultType", 'fn f(a: int ?= "{P}")->int{{a}}'),
+    ("UnionVariant", 'union U(a: int, b: str)\nlet v = U::a("{P}");'),
+    ("Shadowing", 'struct A(x: int)\nlet A = "{P}";'),
+]
+
+
+def gen_error_text(rng, nbytes, template=None):
+    """a rejected program whose offending span carries `nbytes` bytes of multi-byte padding, at the start / middle / end of
+    the file, possibly over several lines (LF or CRLF) and with tabs"""
+    name, t = template or rng.choice(ERROR_TEMPLATES)
+    n1 = rng.randrange(nbytes + 1) if "{Q}" in t and rng.random() < 0.5 else nbytes
+    p, q = make_pad(rng, n1), make_pad(rng, nbytes - n1)
+    c = make_pad(rng, rng.choice([0, 3, nbytes // 2]))
+    if rng.random() < 0.25:
+        nl = rng.choice(["\n", "\r\n", "\n\t", " \t "])
+        k = rng.randrange(len(p) + 1)
+        p = p[:k] + nl + p[k:]
+        c = c + nl + c
+    body = t.replace("{P}", p).replace("{Q}", q).replace("{C}", c).replace("{{", "{").replace("}}", "}")
+    if rng.random() < 0.2:
+        body = body.replace("\n", "\r\n")
+    before = "".join(rng.choice(["let a{0} = {0};\n", "// \u65e5\u672c {0}\n", "fn g{0}()->int{{{0}}}\n", "\t\n"]).format(i) for i in range(rng.choice([0, 0, 1, 3])))
+    after = "".join("let b%d = %d;\n" % (i, i) for i in range(rng.choice([0, 0, 1, 2])))
+    return name, before + rng.choice(["", " ", "\t", "\n"]) + body + rng.choice(["", "\n", "\r\n"]) + after
 
 
 def run(chk):
@@ -403,6 +486,45 @@ def run(chk):
     chk.sample({"compile": texts[n_soup][1][:200]})
 
     stage("totality")
+    # ================================================================== (ii-b) every error renders, whatever its span holds
+    # rejected programs of every error class the generator can provoke, the offending span padded with 1-, 2-, 3- and 4-byte
+    # characters to every byte length 0 .. 400 (any fixed truncation width falls inside a character for some case)
+    rtexts = []
+    per_len = 2 if quick else len(ERROR_TEMPLATES)
+    for nbytes in range(0, 401):
+        tps = rng.sample(ERROR_TEMPLATES, per_len) if quick else ERROR_TEMPLATES
+        for tp in tps:
+            rtexts.append(gen_error_text(rng, nbytes, tp))
+    for tp in ERROR_TEMPLATES:          # every class at a few widths in every run
+        for nbytes in (0, 7, 119, 121, 255, 257):
+            rtexts.append(gen_error_text(rng, nbytes, tp))
+    rtexts.append(("NoOverload", 'let banner = "' + "\u98a8\u6797\u706b\u5c71: " + "\u75be\u304d\u3053\u3068\u98a8\u306e\u5982\u304f\u3001" * 6 + '" + 1;'))
+    rresps = run_harness([{"op": "lex", "f": "render", "src": t} for _, t in rtexts], per_req_timeout=10.0)
+    for (name, t), r in zip(rtexts, rresps):
+        chk.evaluations += 1
+        replay = {"harness": {"op": "lex", "f": "render", "src": t}, "got": r}
+        if "first" not in r:
+            kind = "panic" if "panic" in r else "abort" if "abort" in r else "hang"
+            where = _re.sub(r"^.*?/src/", "src/", str(r.get("panic", ""))).split(":")[0] if kind == "panic" else ""
+            chk.count(f"render:{name}:{kind}")
+            chk.violation(f"total:render-{kind}:{where or name}",
+                          f"a compilation error does not render to a message ({kind}: {str(r.get(kind))[:200]}) for a {name} program whose offending span is "
+                          f"{len(t.encode('utf-8'))} bytes of multi-byte text: {t[:100]!r}", replay)
+            continue
+        first = r["first"]
+        cls = "accept" if first == "ok" else (first["display"].rsplit("[", 1)[-1].rstrip("]") if first["display"].rstrip().endswith("]") else "Syntax")
+        chk.count(f"render:{name}:{cls}")
+        chk.nontrivial.add(t)
+        if first != "ok":
+            if not all(first.get(k, "").strip() for k in ("display", "debug", "alt", "unboxed", "to_string")):
+                chk.violation("total:error-does-not-render", f"a rendering of the compilation error is empty for {t[:120]!r}", replay)
+            if first["display"] != first["to_string"]:
+                chk.violation("determinism:render", f"Display and to_string differ for {t[:120]!r}", replay)
+        if not r["same"]:
+            chk.violation("determinism:render", f"the same text renders its error differently in a second compilation: {t[:120]!r}", replay)
+    chk.coverage["render_classes"] = sorted({k.split(":", 2)[2] for k in chk.counters if k.startswith("render:")})
+    stage("render")
+
     # ================================================================== (iii) determinism
     dets = []
     progs = [t for t in base if "fn main" in t or "let " in t]
